@@ -184,10 +184,10 @@ type traceModel struct {
 }
 
 type cfgEpoch struct {
-	step                                 int
-	hostMeta, ruleReason, spanCnt, cnts  bool
-	attrs                                map[string]string
-	dryRun                               bool
+	step                                int
+	hostMeta, ruleReason, spanCnt, cnts bool
+	attrs                               map[string]string
+	dryRun                              bool
 }
 
 // simConfig is MockConfig with its one wrong getter corrected (the mock's
@@ -216,9 +216,9 @@ type worldA struct {
 	hl    *health.Health
 	start time.Time
 
-	traces  map[string]*traceModel
-	byIdx   map[int]*traceModel
-	spans   map[string]*spanRec
+	traces map[string]*traceModel
+	byIdx  map[int]*traceModel
+	spans  map[string]*spanRec
 	// per-worker FIFO model of the input channels
 	qIn, qPeer map[int][]*spanRec
 	epochs     []cfgEpoch
@@ -828,7 +828,9 @@ func (w *worldA) hooks() {
 		for i := range order {
 			order[i] = i
 		}
-		sort.Slice(order, func(a, b int) bool { return H(w.p.Seed, "ej", ej.step, order[a]) < H(w.p.Seed, "ej", ej.step, order[b]) })
+		sort.Slice(order, func(a, b int) bool {
+			return H(w.p.Seed, "ej", ej.step, order[a]) < H(w.p.Seed, "ej", ej.step, order[b])
+		})
 		for _, i := range order {
 			w.tr.Release(fmt.Sprintf("makeDecision/%d", i))
 			w.drv.Settle()
@@ -851,10 +853,10 @@ func (w *worldA) hooks() {
 // ---------------------------------------------------------------------------
 
 type aOpts struct {
-	preStart  func(w *worldA)             // after config is built, before the collector starts
+	preStart  func(w *worldA)              // after config is built, before the collector starts
 	afterStep func(w *worldA, kind string) // at quiescence after every stimulus
-	final     func(w *worldA)             // after the drain, before shutdown
-	noBase    bool                        // skip the C01..C07 oracles
+	final     func(w *worldA)              // after the drain, before shutdown
+	noBase    bool                         // skip the C01..C07 oracles
 }
 
 func runWorldA(t *testing.T, p *Plan) *Outcome { return runWorldAWith(t, p, aOpts{}) }
